@@ -64,6 +64,21 @@ func (s *Sim) hook(label, path string) {
 		}
 		return
 	}
+	if label == "cache.lock" {
+		// inserted by tools/maporder in front of every write-lock acquisition of
+		// the sender's file cache (not a line of /repo); an optional gate
+		for i := len(s.sendAll) - 1; i >= 0; i-- {
+			n := s.sendAll[i]
+			if strings.HasPrefix(path, n.root+"/") {
+				s.stat("h1:" + label)
+				if n.isDead() || s.hot[label] {
+					s.park(n, label, "", nil)
+				}
+				return
+			}
+		}
+		return
+	}
 	n := s.nodeForPath(path)
 	if n == nil {
 		return
@@ -268,7 +283,9 @@ func (d *gkDeco) Receive(file *sts.Partial, r io.Reader) error {
 			return err
 		}
 	}
+	sp := d.s.spanBegin(d.source, file.Name, file.Hash)
 	err := d.gk.Receive(file, hr)
+	d.s.spanEnd(sp)
 	if !d.n.isDead() {
 		d.s.ob.onReceive(d, file, hr.n, md5hex(hr.h), err)
 	}
